@@ -199,3 +199,100 @@ Theorem C15_constants_from_source :
   s_dot_bw = MERGE_SUFFIX_BW /\ s_dot_bigwig = MERGE_SUFFIX_BIGWIG /\ s_dot_bedgraph = MERGE_SUFFIX_BEDGRAPH.
 Proof. vm_compute. repeat split; lia. Qed.
 Print Assumptions C15_constants_from_source.
+
+(* ================= the merge tool on FILES (Proofs/MergeToolFile.v) =================
+   Above, an input of the tool is "what a reader answers" (per chromosome: name, length, values).  Here the inputs are
+   byte images.  [MergeToolFile.file_view num infl bs] is the file-reading front of the tool: [read_info], then for every
+   chromosome of the table, in table order, the full-span query FROM POSITION 0 ([bw_interval infl bs i c 0 len]);
+   [tool_inputs_of_files] does it for every input and [tool_run_files] is [tool_run] behind that front.
+   [written w bs]: [bs] is the byte image [bw_write] or [bw_write_multipass] returned for the input [w] (rounding mode,
+   options, chromosome sizes, items) under C01's hypotheses (opts_ok, input_ok, file < 2^64 bytes).
+   [num : N -> Z] is the number a value's bit pattern stands for (the merge model computes with exact numbers); every
+   statement holds for every [num], every decompressor [infl], every window size W > 0, every descriptor budget >= 2. *)
+From BT Require Proofs.RTreeCodec Proofs.BigWigQuery Proofs.BigWigFileChroms Proofs.BigWigFileRoundTrip Proofs.BigWigFileInput Proofs.MergeToolFile.
+
+(* what the front returns for a written file IS the written data: the chromosomes with data in first-appearance order,
+   the supplied lengths, and per chromosome the input's values in input order - positions and bit patterns unchanged -
+   minus the zero-length values at position 0 / at the chromosome end (K1: [boundary_zero]; the reader never returns them) *)
+Theorem C15_file_view : forall fp o sizes inp bs,
+  BigWigFileRoundTrip.opts_ok o -> BigWigFileRoundTrip.input_ok sizes inp -> Nlen bs < RTreeCodec.U64 ->
+  BigWigWrite.bw_write fp o sizes inp = Ok bs \/ BigWigWrite.bw_write_multipass fp o sizes inp = Ok bs ->
+  forall num infl,
+  MergeToolFile.file_view num infl bs =
+  Ok (map (fun c => (c, BigWigFileChroms.len_of sizes c,
+                     map (MergeToolFile.conv num)
+                       (filter (fun v => negb (BigWigQuery.boundary_zero (BigWigFileChroms.len_of sizes c) v))
+                          (BigWigFileInput.vals_of inp c))))
+          (BigWigFileInput.first_app (map fst inp))).
+Proof. exact MergeToolFile.file_view_written. Qed.
+Print Assumptions C15_file_view.
+
+Theorem C15_tool_inputs_of_files : forall num infl wl bss, Forall2 MergeToolFile.written wl bss ->
+  MergeToolFile.tool_inputs_of_files num infl bss = Ok (MergeToolFile.read_files num wl).
+Proof. exact MergeToolFile.tool_inputs_written. Qed.
+Print Assumptions C15_tool_inputs_of_files.
+
+(* THE TOOL ON WRITTEN FILES.  Every input is a written file, and its zero-length values (if any) sit at position 0 or at
+   the end of their chromosome ([zero_only_at_boundary]; a zero-length value elsewhere is read back and is outside C15's
+   hypotheses, whose streams hold non-empty values).  Then: the front succeeds with [read_files num wl]; the range query
+   the tool model applies to each stream returns the stream itself (so the streams merged are exactly the written value
+   lists minus K1 values); and C15_tool_run's conclusion holds with the per-base sum of the ORIGINAL inputs
+   ([out_ok_orig] / [expected_of_inputs]: [tool_expected] over [chrom_inputs nm (orig_files num wl)], the inputs' complete
+   value lists): either the table holds every chromosome of every input's data and the rows are, chromosome by
+   chromosome, sorted disjoint values carrying at EVERY base  min(clip, sum of the written data) + adjust  where the sum is
+   non-zero and the result exceeds the threshold, nothing elsewhere; or two inputs were written with different lengths
+   for a common chromosome and the run is the MismatchedChroms error. *)
+Theorem C15_tool_files : forall W maxfds num infl wl bss thr adj clip ty name,
+  0 < W -> (2 <= maxfds)%nat -> Forall2 MergeToolFile.written wl bss ->
+  Forall (fun w => MergeToolFile.zero_only_at_boundary (MergeToolFile.wi_sizes w) (MergeToolFile.wi_inp w)) wl ->
+  let files := MergeToolFile.read_files num wl in
+  MergeToolFile.tool_inputs_of_files num infl bss = Ok files /\
+  (forall f c, In f files -> In c f -> query (snd c) 0 (snd (fst c)) = snd c) /\
+  ((exists table,
+      chrom_table (all_names files) files [] = Ok table /\
+      Forall (fun e => snd e = chrom_inputs (fst (fst e)) files) table /\
+      (forall w c, In w wl -> In c (map fst (MergeToolFile.wi_inp w)) -> bt_has c table = true) /\
+      match detect_output ty name with
+      | None => MergeToolFile.tool_run_files W maxfds num infl bss thr adj clip ty name = Ok None
+      | Some t => exists outs,
+          MergeToolFile.tool_run_files W maxfds num infl bss thr adj clip ty name = Ok (Some (t, rows_spec table outs)) /\
+          Forall2 (MergeToolFile.out_ok_orig num wl thr adj clip) table outs
+      end)
+   \/ (chrom_table (all_names files) files [] = Err 1 /\
+       MergeToolFile.tool_run_files W maxfds num infl bss thr adj clip ty name = Err 1 /\ ~ MergeToolFile.sizes_agree wl)).
+Proof. exact MergeToolFile.tool_files. Qed.
+Print Assumptions C15_tool_files.
+
+(* inputs written with agreeing lengths (in particular: against one chrom.sizes, [MergeToolFile.same_sizes_agree]): no error case *)
+Theorem C15_tool_files_sizes_agree : forall W maxfds num infl wl bss thr adj clip ty name,
+  0 < W -> (2 <= maxfds)%nat -> Forall2 MergeToolFile.written wl bss ->
+  Forall (fun w => MergeToolFile.zero_only_at_boundary (MergeToolFile.wi_sizes w) (MergeToolFile.wi_inp w)) wl ->
+  MergeToolFile.sizes_agree wl ->
+  exists table,
+    chrom_table (all_names (MergeToolFile.read_files num wl)) (MergeToolFile.read_files num wl) [] = Ok table /\
+    (forall w c, In w wl -> In c (map fst (MergeToolFile.wi_inp w)) -> bt_has c table = true) /\
+    match detect_output ty name with
+    | None => MergeToolFile.tool_run_files W maxfds num infl bss thr adj clip ty name = Ok None
+    | Some t => exists outs,
+        MergeToolFile.tool_run_files W maxfds num infl bss thr adj clip ty name = Ok (Some (t, rows_spec table outs)) /\
+        Forall2 (MergeToolFile.out_ok_orig num wl thr adj clip) table outs
+    end.
+Proof. exact MergeToolFile.tool_files_sizes_agree. Qed.
+Print Assumptions C15_tool_files_sizes_agree.
+
+(* non-vacuity, computed from the inputs through the bytes (both writers, one chrom.sizes, a K1 value in each input, a
+   chromosome missing from the second): hypotheses met; the front returns the written values minus the K1 values; the
+   rows are those of C15_tool_run_example *)
+Example C15_tool_files_example :
+  Forall2 MergeToolFile.written [MergeToolFile.mf_w1; MergeToolFile.mf_w2] [MergeToolFile.mf_bs1; MergeToolFile.mf_bs2] /\
+  Forall (fun w => MergeToolFile.zero_only_at_boundary (MergeToolFile.wi_sizes w) (MergeToolFile.wi_inp w))
+    [MergeToolFile.mf_w1; MergeToolFile.mf_w2] /\
+  MergeToolFile.sizes_agree [MergeToolFile.mf_w1; MergeToolFile.mf_w2] /\
+  MergeToolFile.tool_inputs_of_files MergeToolFile.mf_num (fun x => x) [MergeToolFile.mf_bs1; MergeToolFile.mf_bs2] =
+    Ok [[([97], 20, [mkV 0 10 12%Z]); ([98], 9, [mkV 1 3 8%Z])]; [([97], 20, [mkV 5 12 (-12)%Z])]] /\
+  MergeToolFile.orig_files MergeToolFile.mf_num [MergeToolFile.mf_w1; MergeToolFile.mf_w2] =
+    [[([97], 20, [mkV 0 10 12%Z; mkV 20 20 8%Z]); ([98], 9, [mkV 1 3 8%Z])]; [([97], 20, [mkV 0 0 8%Z; mkV 5 12 (-12)%Z])]] /\
+  MergeToolFile.tool_run_files 4 2 MergeToolFile.mf_num (fun x => x) [MergeToolFile.mf_bs1; MergeToolFile.mf_bs2] 0 None None None
+    MergeToolFile.mf_out_name =
+    Ok (Some (OBedGraph, [([97], mkV 0 4 12%Z); ([97], mkV 4 5 12%Z); ([98], mkV 1 3 8%Z)])).
+Proof. exact MergeToolFile.tool_files_example. Qed.
